@@ -29,7 +29,7 @@ import (
 // ---- C14: EstimateUnits / GenerateTransaction budget >= what the signed tx consumes ----
 
 type c14Action struct {
-	Kind  string `json:"kind"` // transfer | prog
+	Kind  string `json:"kind"` // transfer | prog | derived (c14DerivedAction: prog + keys derived from action ID / actor)
 	Bytes string `json:"bytes"`
 }
 
@@ -112,6 +112,8 @@ func (c c14Case) build() (*genesis.Rules, fees.Dimensions, []chain.Action, chain
 		var act chain.Action
 		if a.Kind == "transfer" {
 			act, err = actions.UnmarshalTransfer(raw)
+		} else if a.Kind == "derived" {
+			act, err = parseC14Derived(raw)
 		} else {
 			act, err = parser.ParseAction(raw)
 		}
@@ -211,7 +213,33 @@ func judgeC14(r *kit.Run, c c14Case) (shape string, nontrivial bool) {
 		r.Count("cases_with_bandwidth_slack_below_8", 1)
 	}
 	shape = fmt.Sprintf("n=%d|%d/%d/%d|%s:%d|cid0=%v|tsbytes=%d|fee0=%v", len(acts), pfx[1], pfx[2], pfx[3], c.Auth, varintLen(authLen), rules.ChainID == ids.Empty, varintLen64(tx.Base.Timestamp), tx.Base.MaxFee == 0)
+	if ds := c14DerivedOf(acts); ds.actions > 0 {
+		// what the monitor saw of the derived declarations, from the key set of the signed transaction
+		r.Count("transactions_with_derived_key_actions/"+c.Auth, 1)
+		signedKeys, _ := tx.StateKeys(bh)
+		for _, act := range acts {
+			if d, ok := act.(*c14DerivedAction); ok {
+				first := d.Derived[0] // the template every derived action of a generated case shares
+				if got := countKeysOfTemplate(signedKeys, first); first.Mode != c14ByActor && ds.sharedByID >= 2 && got >= 2 {
+					r.Count("signed_txs_where_one_action_id_template_named_2+_distinct_keys", 1)
+				}
+				break
+			}
+		}
+		if ds.sharedByActr >= 2 {
+			r.Count("signed_txs_with_2+_actions_declaring_one_actor_derived_key", 1)
+		}
+		shape += ds.shape()
+	}
 	return shape, len(acts) >= 2 || pfx[2]+pfx[3] > 0
+}
+
+func c14Kinds(c c14Case) map[string]int {
+	m := map[string]int{}
+	for _, a := range c.Actions {
+		m[a.Kind]++
+	}
+	return m
 }
 
 func varintLen64(v int64) int {
@@ -239,7 +267,7 @@ func genProgOfSize(rng *rand.Rand, nonce uint64, size int, keyPool [][]byte) *ch
 
 var c14Sizes = []int{0, 60, 100, 120, 127, 128, 129, 200, 500, 1000, 2000, 16383, 16384, 17000}
 
-func genC14(rng *rand.Rand, i int) c14Case {
+func genC14(rng *rand.Rand, i int, derived bool) c14Case {
 	c := c14Case{ValidityWindow: 60_000, BH: "prefix"}
 	var cid ids.ID
 	switch rng.IntN(6) {
@@ -288,8 +316,25 @@ func genC14(rng *rand.Rand, i int) c14Case {
 	}
 	big3 := false
 	style := rng.IntN(3) // 0 transfers, 1 progs, 2 mixed
+	var templates []c14DerivedKey
+	if derived {
+		style = 3 + rng.IntN(3) // 3 derived only, 4 derived + progs, 5 derived + progs + transfers
+		templates = genC14DerivedTemplates(rng)
+		if n == 1 && c.MaxActions > 1 && rng.IntN(4) != 0 {
+			n = 2 + rng.IntN(int(c.MaxActions)-1)
+		}
+	}
 	for j := 0; j < n; j++ {
-		if style == 0 || (style == 2 && rng.IntN(2) == 0) {
+		if style >= 3 && (style == 3 || j == 0 || rng.IntN(2) == 0) {
+			size := rng.IntN(300)
+			if rng.IntN(8) == 0 {
+				size = c14Sizes[rng.IntN(10)] // <= 1000
+			}
+			a := genC14Derived(rng, uint64(i)<<16|uint64(j), size, keyPool, templates)
+			c.Actions = append(c.Actions, c14Action{Kind: "derived", Bytes: kit.Hex(a.Bytes())})
+			continue
+		}
+		if style == 0 || ((style == 2 || style == 5) && rng.IntN(2) == 0) {
 			t := &actions.Transfer{Value: rng.Uint64()}
 			copy(t.To[:], seedBytes(rng, codec.AddressLen))
 			if rng.IntN(4) == 0 {
@@ -318,7 +363,7 @@ func genC14(rng *rand.Rand, i int) c14Case {
 
 func TestC14(t *testing.T) {
 	r := kit.Start(t, "C14", "exploration")
-	r.Rule("case = rules (random chain id incl. all-zero, storage costs, max actions 1..255, expiry incl. zero / negative / 2^62 (1..10-byte varints)) x 1..max actions (morpheusvm Transfer with memos 0..256 bytes and programmable actions of 0..2000 (occasionally 16384+) encoded bytes so that 1-, 2- and 3-byte length prefixes occur, declared key sets with duplicates) x auth factory (ed25519, secp256r1, BLS, configurable-size spy auth) x unit prices; chain.GenerateTransaction signs the transaction; judged: EstimateUnits[d] >= Transaction.Units[d] of the signed transaction for all 5 dimensions and MaxFee >= sum price*units in math/big. Non-trivial = >= 2 actions or an action of >= 128 bytes; distinct = (action count, histogram of length-prefix sizes, auth kind/prefix size, zero chain id, expiry varint size, zero fee).")
+	r.Rule("case = rules (random chain id incl. all-zero, storage costs, max actions 1..255, expiry incl. zero / negative / 2^62 (1..10-byte varints)) x 1..max actions (morpheusvm Transfer with memos 0..256 bytes and programmable actions of 0..2000 (occasionally 16384+) encoded bytes so that 1-, 2- and 3-byte length prefixes occur, declared key sets with duplicates; plus an own stream of cases with 1..max actions of which several are create-asset/mint/account style actions whose StateKeys(actor, actionID) are derived: key = prefix || actionID, prefix || actor or prefix || actor || actionID, each with a fixed chunk suffix (0..65535) and permissions, 1..3 such declarations per action drawn from 1..3 templates per case so that many actions of one transaction declare the SAME template (distinct keys in the signed transaction for action-ID templates, one shared key for actor templates), alone or mixed with fixed-key programmable actions and Transfers) x auth factory (ed25519, secp256r1, BLS, configurable-size spy auth) x unit prices; chain.GenerateTransaction signs the transaction; judged: EstimateUnits[d] >= Transaction.Units[d] of the signed transaction for all 5 dimensions and MaxFee >= sum price*units in math/big. Non-trivial = >= 2 actions or an action of >= 128 bytes; distinct = (action count, histogram of length-prefix sizes, auth kind/prefix size, zero chain id, expiry varint size, zero fee; for derived-key cases additionally buckets of the number of derived-key actions, the derivation modes used, and the largest number of actions sharing one action-ID / one actor template).")
 	r.Assume(
 		"rules.SponsorStateKeysMaxChunks describes the balance handler's sponsor keys (default {1} = one balance key of one chunk, true for the prefix and the morpheusvm balance handlers used here)",
 		"AuthFactory.MaxUnits is the factory's own promise about the auth it produces (true for the built-in factories)",
@@ -334,9 +379,9 @@ func TestC14(t *testing.T) {
 		}
 	}
 	rng := r.Rand("cases")
-	n := r.N(4000, 60000)
+	n := r.N(4000, 45000)
 	for i := 0; i < n; i++ {
-		c := genC14(rng, i)
+		c := genC14(rng, i, false)
 		if i == 0 { // the design-phase probe: 16 transfers with 200-byte memos, ed25519, non-zero chain id
 			c = c14Case{ChainID: ids.ID{9}.String(), Timestamp: 1_700_000_000_000, ValidityWindow: 60_000, MaxActions: 16, Auth: "ed25519", AuthSeed: kit.Hex(make([]byte, 32)), BH: "morpheusvm",
 				Costs: [7]string{"1", "5", "2", "20", "5", "10", "3"}, Prices: [5]string{"1", "1", "1", "1", "1"}}
@@ -351,6 +396,18 @@ func TestC14(t *testing.T) {
 		}
 		if i < 3 {
 			r.Sample(map[string]any{"shape": shape, "auth": c.Auth, "actions": len(c.Actions), "chain_id": c.ChainID})
+		}
+	}
+	// actions whose declared keys are derived from their own action ID / the actor (own stream)
+	drng := r.Rand("derived-key-cases")
+	for i, nd := 0, r.N(1500, 12000); i < nd; i++ {
+		c := genC14(drng, 1<<20|i, true)
+		shape, nt := judgeC14(r, c)
+		if nt {
+			r.Distinct(shape)
+		}
+		if i < 2 {
+			r.Sample(map[string]any{"shape": shape, "auth": c.Auth, "actions": len(c.Actions), "chain_id": c.ChainID, "kinds": c14Kinds(c)})
 		}
 	}
 	c14Concurrent(r)
